@@ -246,4 +246,8 @@ theorem getAttr_none {s : State} {k : Key} (h : getAttr s k = none) :
   have := List.find?_eq_none.mp h r hr
   simpa using this
 
+theorem hasKey_iff (s : State) (k : Key) : hasKey s k = true ↔ ∃ r ∈ s.recs, r.key = k := by
+  unfold hasKey
+  simp only [List.any_eq_true, decide_eq_true_eq]
+
 end PvProofs.Lemmas.AttrStore
